@@ -38,3 +38,5 @@ pub mod h_serde_leaves;
 // h_array.rs (C16 probe: toml_edit::Array as a vector) is kept for reference but not compiled:
 // push / insert / len / get finish (30-40 s) but remove / replace / clear -- anything that moves an
 // `Item` out of the heap buffer or drops one -- do not (> 20 min), so C16 stays not-applicable
+#[path = "h_datetime_printer.rs"]
+pub mod h_datetime_printer;
